@@ -411,6 +411,7 @@ func c08Release(c *Ctx) {
 		scope := c.ReachSync(cl)
 		// fields (including nested anonymous structs)
 		var fields []string
+		walked := map[*types.Named]bool{}
 		var walk func(prefix string, st *types.Struct)
 		walk = func(prefix string, st *types.Struct) {
 			for i := 0; i < st.NumFields(); i++ {
@@ -421,6 +422,15 @@ func c08Release(c *Ctx) {
 				if inner, ok := f.Type().Underlying().(*types.Struct); ok {
 					if _, named := f.Type().(*types.Named); !named {
 						walk(prefix+f.Name()+".", inner)
+					}
+				}
+				// a record of resources published through an atomic.Pointer[R] member: R's members are the transport's
+				if nt, ok := f.Type().(*types.Named); ok && nt.Obj().Pkg() != nil && nt.Obj().Pkg().Path() == "sync/atomic" && nt.TypeArgs() != nil && nt.TypeArgs().Len() == 1 {
+					if rec, ok := nt.TypeArgs().At(0).(*types.Named); ok && ir.InLibrary(rec) && !walked[rec] {
+						if rs, ok := rec.Underlying().(*types.Struct); ok {
+							walked[rec] = true
+							walk(ir.TypeKey(rec)+".", rs)
+						}
 					}
 				}
 			}
